@@ -9,6 +9,8 @@ spec fn tx_commit_core(t: TxInner) -> bool {
     // the transaction's snapshot map was made with the handle's page size and covers the file as it was when the transaction began
     &&& tx_map_ok(t)
     &&& t.meta.freelist_page > 1 && t.num_freelist_pages > 0 && t.meta.freelist_page + t.num_freelist_pages <= u64::MAX
+    // every pending id, and the free-list run that will join them at commit, is a tree page below the high-water mark
+    &&& pend_in_range(f.inner, f.meta.num_pages) && t.meta.freelist_page + t.num_freelist_pages <= f.meta.num_pages
 }
 // ... and the resource bound nobody can establish: whatever the tree layer allocates, the file offsets of the commit fit in u64
 spec fn tx_commit_pre(t: TxInner) -> bool {
